@@ -125,6 +125,7 @@ from mypy.nodes import (
     WithStmt,
     YieldExpr,
     YieldFromExpr,
+    check_param_names,
 )
 from mypy.options import Options
 from mypy.patterns import (
@@ -628,6 +629,12 @@ def read_parameters(state: State, data: ReadBuffer) -> tuple[list[Argument], boo
         set_line_column_range(var, arg)
         arguments.append(arg)
 
+    # Same as in fastparse.py: a repeated parameter name is a blocking error.
+    check_param_names(
+        [arg.variable.name for arg in arguments],
+        arguments,
+        lambda msg, arg: state.add_error(msg, arg.line, arg.column, blocker=True, code="syntax"),
+    )
     return arguments, has_ann
 
 
